@@ -72,6 +72,16 @@ impl Journal {
     ///
     /// * `record` - will be serialized into the journal
     pub fn insert_record(&self, soa_serial: u32, record: &Record) -> Result<(), PersistenceError> {
+        let conn = self.conn.lock().expect("conn poisoned");
+        self.insert_record_with(&conn, soa_serial, record)
+    }
+
+    fn insert_record_with(
+        &self,
+        conn: &Connection,
+        soa_serial: u32,
+        record: &Record,
+    ) -> Result<(), PersistenceError> {
         assert!(
             self.version == CURRENT_VERSION,
             "schema version mismatch, schema_up() resolves this"
@@ -87,7 +97,7 @@ impl Journal {
         let client_id: i64 = 0; // TODO: we need better id information about the client, like pub_key
         let soa_serial: i64 = i64::from(soa_serial);
 
-        let count = self.conn.lock().expect("conn poisoned").execute(
+        let count = conn.execute(
             "INSERT
                                           \
                                             INTO records (client_id, soa_serial, timestamp, \
@@ -112,16 +122,19 @@ impl Journal {
         Ok(())
     }
 
-    /// Inserts a set of records into the Journal, a convenience method for insert_record
+    /// Inserts a set of records into the Journal in a single transaction: after a stop either all
+    /// of them or none of them are in the Journal.
     pub fn insert_records(
         &self,
         soa_serial: u32,
         records: &[Record],
     ) -> Result<(), PersistenceError> {
-        // TODO: NEED TRANSACTION HERE
+        let mut conn = self.conn.lock().expect("conn poisoned");
+        let tx = conn.transaction()?;
         for record in records {
-            self.insert_record(soa_serial, record)?;
+            self.insert_record_with(&tx, soa_serial, record)?;
         }
+        tx.commit()?;
 
         Ok(())
     }
